@@ -44,3 +44,12 @@ PROPS["C14"] = {
     "level_text": "(work in progress: shipped tables only) WF of the registry built by each shipped filler, row by row.",
     "level_note": "history part (mutator contracts) not yet registered",
 }
+
+SC = "barril.units._scalar:Scalar"
+QM = "barril.units._quantity"
+PROPS["C02"] = {
+    "tasks": lambda tier: [V(UDB + ":UnitDatabase.Convert"), V(UDB + ":UnitDatabase.GetInfo"), V(QM + ":Quantity.ConvertScalarValue"), V(QM + ":Quantity.__init__"), V(QM + ":ObtainQuantity"), V(SC + ".GetAbstractValue")],
+    "level": "proof",
+    "level_text": "(in progress) functional contracts of the conversion routes against the spec function conv",
+    "level_note": "floats are reals; WF/QI assumed for inputs",
+}
